@@ -1,4 +1,5 @@
 import OnetVerif.Model.C07
+import OnetVerif.Model.C07Locks
 import OnetVerif.Shapes
 /-! Property C07 — no peer input can crash, wedge or silence a server. -/
 namespace C07
@@ -706,6 +707,219 @@ example : reader .K .none .m3 = false ∧ reader .K .spoof .m3 = false ∧ reade
     reader .U .member .m2 = true ∧ reader .K .member .m1 = true := by decide
 
 
+/-! ### all locks: released, never taken twice, one global order (`Model/C07Locks.lean`) -/
+
+/-- a sequence that gives back the stack of held locks it started with -/
+def Closed (held : List Lock) (tr : List LEv) : Prop := nest held tr = some held
+
+theorem nest_append (h : List Lock) (a b : List LEv) :
+    nest h (a ++ b) = (nest h a).bind (fun h' => nest h' b) := by
+  induction a generalizing h with
+  | nil => simp [nest]
+  | cons e a ih =>
+    cases e with
+    | acq l =>
+      simp only [List.cons_append, nest]
+      split
+      · simp
+      · split
+        · exact ih _
+        · simp
+    | rel l =>
+      simp only [List.cons_append, nest]
+      cases h with
+      | nil => simp
+      | cons x rest =>
+        simp only
+        split
+        · exact ih _
+        · simp
+
+theorem closed_nil (h : List Lock) : Closed h [] := rfl
+
+theorem closed_append {h : List Lock} {a b : List LEv} (ha : Closed h a) (hb : Closed h b) : Closed h (a ++ b) := by
+  unfold Closed at *; rw [nest_append, ha]; exact hb
+
+theorem closed_within {h : List Lock} {l : Lock} {inner : List LEv} (hn : l ∉ h)
+    (hr : h.all (fun x => rank x < rank l) = true) (hi : Closed (l :: h) inner) : Closed h (within l inner) := by
+  unfold Closed within at *
+  simp only [List.cons_append, List.nil_append, nest, hn, hr, if_false, if_true]
+  rw [nest_append, hi]
+  simp [nest]
+
+/-- a leaf lock (rank 2) can be taken and released under any of the stacks that occur -/
+theorem closed_leaf (h : List Lock) (l : Lock) (hl : rank l = 2) (hh : h.all (fun x => rank x < 2) = true) :
+    Closed h (within l []) := by
+  apply closed_within
+  · intro hm
+    have := List.all_eq_true.mp hh l hm
+    simp [hl] at this
+  · simpa [hl] using hh
+  · exact closed_nil _
+
+theorem closed_ts (h : List Lock) (hh : h.all (fun x => rank x < 2) = true) : Closed h tsOp := closed_leaf h .store rfl hh
+theorem closed_pm (h : List Lock) (hh : h.all (fun x => rank x < 2) = true) : Closed h pmOp := closed_leaf h .pendingMsg rfl hh
+theorem closed_cfg (h : List Lock) (hh : h.all (fun x => rank x < 2) = true) : Closed h cfgOp := closed_leaf h .pendingCfg rfl hh
+theorem closed_q (h : List Lock) (hh : h.all (fun x => rank x < 2) = true) : Closed h qOp := closed_leaf h .queue rfl hh
+
+theorem closed_clean (h : List Lock) (hh : h.all (fun x => rank x < 2) = true) (s : Srv) (t : TRef) :
+    Closed h (cleanTr s t) := by
+  unfold cleanTr; split
+  · exact closed_nil _
+  · exact closed_ts h hh
+
+theorem closed_inst_mux {inner : List LEv} (hi : Closed [.instances, .transmitMux] inner) :
+    Closed [.transmitMux] (within .instances inner) :=
+  closed_within (by decide) (by decide) hi
+
+theorem closed_create : Closed [.transmitMux] createTr := by
+  unfold createTr
+  exact closed_append (closed_append (closed_append (closed_inst_mux (closed_nil _)) (closed_ts _ (by decide)))
+    (closed_pm _ (by decide))) (closed_cfg _ (by decide))
+
+theorem closed_bindHand : Closed [.transmitMux] bindHandTr := by
+  unfold bindHandTr
+  exact closed_append (closed_inst_mux (closed_nil _)) (closed_q _ (by decide))
+
+theorem closed_fail (X : Srv) (t : TRef) :
+    Closed [.transmitMux] (within .instances (qOp ++ cleanTr X t)) :=
+  closed_inst_mux (closed_append (closed_q _ (by decide)) (closed_clean _ (by decide) X t))
+
+/-- **`TransmitMsg` is well nested and ordered** in every state, for every destination token -/
+theorem closed_transmit (s : Srv) (to : Tok) : Closed [] (transmitTr s to) := by
+  unfold transmitTr
+  apply closed_append (closed_ts [] (by decide))
+  apply closed_within (by decide) (by decide)
+  have i0 : Closed [.transmitMux] (within .instances []) := closed_inst_mux (closed_nil _)
+  have hand : Closed [.transmitMux] (within .instances [] ++ qOp) := closed_append i0 (closed_q _ (by decide))
+  have full : Closed [.transmitMux] (within .instances [] ++ createTr ++ bindHandTr) :=
+    closed_append (closed_append i0 closed_create) closed_bindHand
+  cases to with
+  | none => exact closed_nil _
+  | zero => exact i0
+  | badNode => exact i0
+  | done =>
+    simp only
+    split
+    · exact closed_inst_mux (closed_clean _ (by decide) _ _)
+    · split
+      · exact hand
+      · exact full
+  | run => simp only; split; exact hand; exact full
+  | fresh t => simp only; split; exact hand; exact full
+  | badProto t =>
+    simp only
+    split
+    · exact closed_inst_mux (closed_clean _ (by decide) _ _)
+    · exact closed_append (closed_append i0 closed_create) (closed_fail _ _)
+  | badProtoNew t =>
+    simp only
+    exact closed_append (closed_append i0 closed_create) (closed_fail _ _)
+
+theorem closed_flushBody (l : List (Tok × Frm × Body)) (s : Srv) : Closed [] (flushBody s l) := by
+  induction l generalizing s with
+  | nil => exact closed_nil _
+  | cons x l ih =>
+    obtain ⟨to, frm, b⟩ := x
+    exact closed_append (closed_transmit s to) (ih _)
+
+theorem closed_sendTree (s : Srv) (tm : Option TM) (ro : Option Ro) : Closed [] (sendTreeTr s tm ro) := by
+  unfold sendTreeTr
+  cases tm with
+  | none => exact closed_nil _
+  | some tm =>
+    simp only
+    split
+    · exact closed_nil _
+    · cases ro with
+      | none => exact closed_nil _
+      | some ro =>
+        simp only
+        split
+        · exact closed_ts _ (by decide)
+        · split
+          · exact closed_append (closed_ts _ (by decide)) (closed_ts _ (by decide))
+          · exact closed_ts _ (by decide)
+
+theorem closed_instLoop (n : Nat) : Closed [.instances] (instLoop n) := by
+  induction n with
+  | zero => exact closed_nil _
+  | succ n ih => exact closed_append (closed_ts _ (by decide)) ih
+
+theorem closed_pendingLoop (ro : Ro) (l : List TM) (s : Srv) : Closed [.pendingTree] (pendingLoopTr ro s l) := by
+  induction l generalizing s with
+  | nil => exact closed_nil _
+  | cons tm l ih =>
+    simp only [pendingLoopTr]
+    split
+    · exact closed_append (closed_ts _ (by decide)) (ih _)
+    · split
+      · exact closed_append (closed_append (closed_ts _ (by decide)) (closed_ts _ (by decide))) (ih _)
+      · exact closed_append (closed_ts _ (by decide)) (ih _)
+
+/-- **no lock is left held, none is taken twice, and all are taken in one global order**: for every server
+state and every envelope the handler goroutine's sequence of lock operations — `transmitMux`, the instance
+list's, the pending-tree, pending-message and pending-config locks, the tree store's mutex, an instance's
+queue mutex — is well nested, ends with every lock released, and respects `rank`. -/
+theorem c07_all_locks_released_and_ordered (s : Srv) (e : Env) : nest [] (lockTrace s e) = some [] := by
+  show Closed [] (lockTrace s e)
+  cases e with
+  | proto to frm b =>
+    simp only [lockTrace]
+    split
+    · exact closed_nil _
+    · split
+      · exact closed_nil _
+      · split
+        · exact closed_transmit s to
+        · have t := closed_ts [] (by decide)
+          refine closed_append (closed_append (closed_append (closed_append t (closed_pm [] (by decide))) t) t) ?_
+          split
+          · exact t
+          · exact closed_nil _
+  | reqTree t v => exact closed_ts _ (by decide)
+  | respTree tm ro => exact closed_sendTree s tm ro
+  | treeMarshal tm =>
+    simp only [lockTrace]
+    split
+    · exact closed_nil _
+    · split
+      · exact closed_ts _ (by decide)
+      · refine closed_append (closed_append (closed_ts _ (by decide)) ?_) ?_
+        · exact closed_within (by decide) (by decide) (closed_instLoop _)
+        · split
+          · exact closed_sendTree _ _ _
+          · exact closed_within (by decide) (by decide) (closed_nil _)
+  | reqRoster r => exact closed_ts _ (by decide)
+  | sendRoster ro =>
+    simp only [lockTrace]
+    split
+    · exact closed_nil _
+    · exact closed_within (by decide) (by decide) (closed_pendingLoop ro _ s)
+  | config w d =>
+    simp only [lockTrace]
+    split
+    · exact closed_nil _
+    · exact closed_cfg _ (by decide)
+
+/-- the same for the flush goroutine that a stored tree starts -/
+theorem c07_flush_locks_released_and_ordered (s : Srv) (l : List (Tok × Frm × Body)) :
+    nest [] (flushTr s l) = some [] := by
+  show Closed [] (flushTr s l)
+  unfold flushTr
+  exact closed_append (closed_pm [] (by decide)) (closed_flushBody l s)
+
+/-- the pinned code before repair 9b09732 ended a roster message with `pendingTreeLock` held -/
+theorem c07_old_locks_not_released :
+    nest [] (lockTraceOld {} (.sendRoster ⟨.roR, true, true⟩)) = some [.pendingTree] := by decide
+
+/-- the order is not vacuous: taking the instance list's lock while holding the store's mutex (the inverse of
+`cleanTreeStorage`'s nesting) is rejected, and so is taking a lock twice -/
+example : nest [] [.acq .store, .acq .instances, .rel .instances, .rel .store] = none ∧
+    nest [] [.acq .transmitMux, .acq .transmitMux] = none ∧
+    nest [] (lockTrace {} (.proto (.badProto .K) .member .m3)) = some [] := by decide
+
+
 /-! ### the code regions the model stands for
 Regenerated from /repo's source on every run (`harness/cmd/astfacts` → `OnetVerif/Shapes.lean`): the
 calls that matter for synchronisation and data flow, the lock regions and (for decision logic) the
@@ -836,5 +1050,29 @@ theorem c07_shape_TreeNodeInstance_createValueAndVerify :
      "if:(((msg.ServerIdentity!=nil)&&(tn!=nil))&&!tn.ServerIdentity.Equal(msg.ServerIdentity))",
      "return:m,xerrors.Errorf(\"\",tn.ServerIdentity,msg.ServerIdentity)", "return:m,nil"] := rfl
 
+
+theorem c07_shape_Overlay_newTreeNodeInstanceFromToken :
+    Shapes.overlay_Overlay_newTreeNodeInstanceFromToken =
+   ["newTreeNodeInstance", "instancesLock.Lock", "defer:instancesLock.Unlock", "if:o.closed",
+     "tni.closeDispatch", "return:tni", "tok.ID", "return:tni"] := rfl
+
+theorem c07_shape_Overlay_RegisterProtocolInstance :
+    Shapes.overlay_Overlay_RegisterProtocolInstance =
+   ["instancesLock.Lock", "defer:instancesLock.Unlock", "pi.Token", "tok.ID", "tni.isBound",
+     "tni.bind", "tok.ID"] := rfl
+
+theorem c07_shape_Overlay_savePendingMsg :
+    Shapes.overlay_Overlay_savePendingMsg =
+   ["pendingMsgLock.Lock", "pendingMsgLock.Unlock"] := rfl
+
+theorem c07_shape_TreeNodeInstance_closeDispatch :
+    Shapes.treenode_TreeNodeInstance_closeDispatch =
+   ["defer{", "}", "msgDispatchQueueMutex.Lock", "close:msgDispatchQueueWait",
+     "msgDispatchQueueMutex.Unlock", "n.ProtocolInstance", "pni.Shutdown"] := rfl
+
+theorem c07_shape_TreeNodeInstance_ProcessProtocolMsg :
+    Shapes.treenode_TreeNodeInstance_ProcessProtocolMsg =
+   ["msgDispatchQueueMutex.Lock", "defer:msgDispatchQueueMutex.Unlock", "if:n.closing",
+     "return:", "n.notifyDispatch"] := rfl
 
 end C07
